@@ -266,3 +266,72 @@ Proof.
       assert (In n (skipn (length (procs L)) (sortN (nonces L)))) by (rewrite Es; left; auto).
       rewrite <- (firstn_skipn (length (procs L)) (sortN (nonces L))). apply in_or_app. right. exact H.
 Qed.
+
+(* ---- what a successful Add (as called by the pool: processable = false) does to the list ---- *)
+Lemma list_add_spec : forall m d a t L L' removed, (1 <= m)%nat -> ListInv m a L ->
+  list_add m d t false L = (L', true, removed) ->
+  afind (tnonce t) (txs L') = Some t /\
+  (forall k u, k <> tnonce t -> afind k (txs L') = Some u -> afind k (txs L) = Some u) /\
+  (forall k u, afind k (txs L) = Some u -> afind k (txs L') = Some u \/ removed = Some (tid u)) /\
+  (forall rid, removed = Some rid ->
+     exists k u, afind k (txs L) = Some u /\ tid u = rid /\ (k = tnonce t \/ afind k (txs L') = None)) /\
+  (forall k, In k (procs L') -> In k (procs L) /\ k <> tnonce t /\ afind k (txs L') = afind k (txs L)) /\
+  (forall ex, afind (tnonce t) (txs L) = Some ex -> removed = Some (tid ex) /\ tfee ex + d <= tfee t) /\
+  (afind (tnonce t) (txs L) = None -> forall rid, removed = Some rid ->
+     (max_nonce L <> tnonce t /\ exists u, afind (max_nonce L) (txs L) = Some u /\ tid u = rid /\ (m < length (nonces L) + 1)%nat)).
+Proof.
+  intros m d a t L L' removed Hm HI Hadd. pose proof HI as (H1 & H2 & H3 & H4 & H5 & H6). unfold list_add in Hadd.
+  destruct (afind (tnonce t) (txs L)) as [ex|] eqn:E.
+  - destruct ((tfee t <? tfee ex) || (tfee t - tfee ex <? d)) eqn:Ef; [inversion Hadd|].
+    inversion Hadd; subst; clear Hadd. cbn [txs procs nonces].
+    apply orb_false_iff in Ef. destruct Ef as [Ef1 Ef2]. apply N.ltb_ge in Ef1. apply N.ltb_ge in Ef2.
+    split; [apply afind_aset_eq|]. split; [intros k u Hk Hf; rewrite afind_aset_neq in Hf; auto|].
+    split; [|split; [|split; [|split]]].
+    + intros k u Hf. destruct (N.eq_dec (tnonce t) k) as [<-|Hne].
+      * rewrite E in Hf. inversion Hf; subst. right; auto.
+      * left. rewrite afind_aset_neq; auto.
+    + intros rid Hr. inversion Hr; subst. exists (tnonce t), ex. auto.
+    + intros k Hk. destruct (demote_In _ _ _ H5 Hk) as [Hp Hlt]. split; auto. split; [lia|].
+      apply afind_aset_neq. lia.
+    + intros ex' Hex. inversion Hex; subst. split; auto. lia.
+    + intros; discriminate.
+  - destruct (m <? length (nonces L) + 1)%nat eqn:Ecap.
+    + destruct (max_nonce L <? tnonce t) eqn:Emx; [inversion Hadd|].
+      apply Nat.ltb_lt in Ecap. apply N.ltb_ge in Emx.
+      assert (Hne : nonces L <> []) by (destruct (nonces L); simpl in *; [lia|discriminate]).
+      pose proof (max_nonce_In L Hne) as Hin. apply H2 in Hin.
+      destruct (afind (max_nonce L) (txs L)) as [exm|] eqn:Em; [|congruence].
+      assert (Hmn : max_nonce L <> tnonce t) by (intros X; rewrite X in Em; congruence).
+      rewrite (list_remove_found _ _ _ Em) in Hadd. inversion Hadd; subst; clear Hadd.
+      unfold list_insert; cbn [txs procs nonces andb].
+      split; [apply afind_aset_eq|]. split; [|split; [|split; [|split; [|split]]]].
+      * intros k u Hk Hf. rewrite afind_aset_neq in Hf by auto.
+        destruct (N.eq_dec (max_nonce L) k) as [<-|Hne2]; [rewrite afind_adel_eq in Hf; discriminate|].
+        rewrite afind_adel_neq in Hf; auto.
+      * intros k u Hf. destruct (N.eq_dec (max_nonce L) k) as [<-|Hne2].
+        -- rewrite Em in Hf. inversion Hf; subst. right; auto.
+        -- left. assert (tnonce t <> k) by (intros <-; congruence).
+           rewrite afind_aset_neq by auto. rewrite afind_adel_neq; auto.
+      * intros rid Hr. inversion Hr; subst. exists (max_nonce L), exm. split; auto. split; auto. right.
+        rewrite afind_aset_neq by auto. apply afind_adel_eq.
+      * intros k Hk. destruct (demote_In _ _ _ H5 Hk) as [Hp Hlt].
+        assert (k <> tnonce t). { intros ->. apply H6 in Hp. apply H2 in Hp. congruence. }
+        split; auto. split; auto. rewrite afind_aset_neq by auto. apply afind_adel_neq. lia.
+      * intros; discriminate.
+      * intros _ rid Hr. inversion Hr; subst. split; auto. exists exm. auto.
+    + inversion Hadd; subst; clear Hadd. unfold list_insert; cbn [txs procs nonces andb].
+      split; [apply afind_aset_eq|]. split; [intros k u Hk Hf; rewrite afind_aset_neq in Hf; auto|].
+      split; [|split; [|split; [|split]]].
+      * intros k u Hf. left. assert (tnonce t <> k) by (intros <-; congruence). rewrite afind_aset_neq; auto.
+      * intros; discriminate.
+      * intros k Hk. assert (k <> tnonce t). { intros ->. apply H6 in Hk. apply H2 in Hk. congruence. }
+        split; auto. split; auto. apply afind_aset_neq. auto.
+      * intros; discriminate.
+      * intros; discriminate.
+Qed.
+
+Lemma list_add_empty_ok : forall m d t, (1 <= m)%nat -> snd (fst (list_add m d t false empty_list)) = true.
+Proof.
+  intros. unfold list_add, empty_list; cbn [txs nonces procs afind length]. 
+  destruct (m <? 0 + 1)%nat eqn:E; auto. apply Nat.ltb_lt in E. lia.
+Qed.
